@@ -374,7 +374,12 @@ func combinePaths(paths []PPath, leaf func(PResult) (PVal, string)) (string, boo
 		}
 		var conds []string
 		for _, d := range p.Decisions {
-			conds = append(conds, canonDecision(d))
+			cd := canonDecision(d)
+			// a decision about the dispatch itself (a table of operations that did not fold), not about the operands' values
+			if strings.Contains(cd, "lookup-ok") || strings.Contains(cd, "load global") {
+				return "", false, "the dispatch goes through a table that the partial evaluator cannot fold: " + cd
+			}
+			conds = append(conds, cd)
 		}
 		var ls string
 		if p.Res.Panic {
@@ -683,6 +688,13 @@ func ruleUnaryTable(c *Ctx, rule string) {
 			ob.Und(err)
 			continue
 		}
+		// a string whose length is known to be zero on that path is the empty string
+		term = emptyUnderZeroLength.ReplaceAllString(term, `[(len($1) $2)] -> engine.ProcessValueString{""}`)
+		{
+			parts := strings.Split(term, " ; ")
+			sort.Strings(parts)
+			term = strings.Join(parts, " ; ")
+		}
 		ok := false
 		for _, w := range want[k] {
 			if term == w {
@@ -763,3 +775,5 @@ func negGuard(g string) string {
 	}
 	return "!" + g
 }
+
+var emptyUnderZeroLength = regexp.MustCompile(`\[\(len\((getString\(X\))\) (<= 0|< 1|== 0)\)\] -> engine\.ProcessValueString\{getString\(X\)\}`)
